@@ -492,7 +492,19 @@ def op_send(M, ch, tr, st, rng, s, other, kind, buffer_reuse, closed_loop):
     else:
         s.Fm[:, s.last] = s.Fm[:, s.last] + f
         new_last = s.last
-    if stored and i > 0 and ch.flip(1, 2, "send_view_of_force_record"):
+    viewsrc = None
+    if (not stored and other is not None and other.sys.n == n and not other.sys.cplx and not s.sys.cplx and kind != "addon"
+            and ch.flip(1, 6, "force_is_view_of_other_state")):
+        # coupling through a unit spring: the force handed over IS a column of the other
+        # body's displacement array (a view of another solver's state, which changes later)
+        viewsrc = other.d[:, other.last]
+        f = np.array(viewsrc.real, copy=True)
+        if i > 0:
+            s.Fm[:, i] = f
+        st.fault("force_is_view_of_other_state")
+    if viewsrc is not None:
+        arg = viewsrc
+    elif stored and i > 0 and ch.flip(1, 2, "send_view_of_force_record"):
         # replay with the solver's own (documented) force record: a VIEW of ts._force
         arg = s.ts._force[:, i]
         st.fault("sent_view_of_force_record")
@@ -788,5 +800,5 @@ EXPECTED_FAULTS = [
     "redo_same_force", "redo_new_force", "jump_back_1", "jump_back_far", "addon", "addon_then_advance", "addon_then_redo",
     "redo_then_advance", "addon_order0", "buffer_reuse", "closed_loop_force", "two_sessions_interleaved", "nt_1", "rf_only",
     "rb_only", "static_ic", "complex_coefficients", "f2x_probe", "addon_twice", "instance_reused", "same_instance_tsolve",
-    "same_instance_fsolve", "long_session", "force_int", "resend_stored_force", "deep_run", "f2x_phi_buffer_reused", "F0_buffer_reused", "sent_view_of_force_record", "ic_velocity_only",
+    "same_instance_fsolve", "long_session", "force_int", "resend_stored_force", "deep_run", "f2x_phi_buffer_reused", "F0_buffer_reused", "sent_view_of_force_record", "ic_velocity_only", "force_is_view_of_other_state",
 ]
